@@ -83,7 +83,7 @@ def compare(a, b, what):
             x, y = a['index'][i], b['index'].get(i)
             if y is None:
                 continue
-            if {x[1], y[1]} & REFUSALS:
+            if (x[0] == 'e' and x[1] in REFUSALS) or (y[0] == 'e' and y[1] in REFUSALS):
                 continue
             if x[0] != y[0] or (x[0] == 'v' and not observe.same(x[1], y[1])) or (x[0] == 'e' and x[1] != y[1]):
                 raise Violation(f'{what}|index', f'ds[{i}]: lhs {x} rhs {y}')
